@@ -9,14 +9,22 @@ shortest_int
     * EVERY vector of length <= 6 over the scale mix {0, 0.5, 1e-3, 7} (thorough: <= 8),
     * EVERY vector of length <= 6 over the tiny-scale alphabet {0,1,2,3}*1e-11 (the statement is
       scale free; thorough: <= 8),
-    * int64 vectors of length <= 6 over {0,1,2,3},
-    * seeded long vectors (10^4, 2^17; Gaussian / uniform / dyadic 16-level quantised).
+    * integer-dtype vectors of length <= 6 (thorough: <= 7): int64 {0,1,2,3}, int32 {-2,-1,0,1}, uint16 {0,1,2,3},
+      full-scale int16 {-30000,0,3000,30000} (differences do not fit the dtype),
+    * the EDGE percentages (14 values: below 1 %, around 1 %, fractional with exact products, close to 100 %) x every
+      vector of length <= 7 over {0,1,2,3} (thorough: <= 8) and every int64 vector of length <= 6,
+    * seeded long vectors (64 ... 2^17; Gaussian / uniform / dyadic 16-level quantised; float64, float32 and raw integer
+      counts int32/int64/int16/uint16) with the standard and the edge percentages (lag >= 1 below 1 % needs > 100 samples).
   Vectors are batched by their 3-symbol prefix: one `si_batch` call runs all vectors below a prefix
   with all percentages.  Failing (vector, percent) pairs are re-registered as single-vector cases so
   that the replay file holds exactly the smallest failing input.
 
 ADC
-    5 signal families x 7 lengths x n in 1..12 x otype x {ndarray, container, container+noise}.
+    adc      : 5 signal families x 7 lengths x 7 dtype forms (float64, float32, int32/int64/int16 counts, uint16 counts,
+               full-scale int16) x n in 1..12 x otype x {ndarray, container, container+noise}, a fresh input per call.
+    adc-sweep: family x length x dtype form x input form x {writable, write-protected}: ONE input object converted with all
+               24 (n, otype) in turn; every conversion is judged against the signal handed over before the first call and
+               the argument's bytes are compared with a snapshot after every call.
 
 Oracles: see notes/C18.md.
 """
@@ -50,8 +58,12 @@ ALPHABETS = {
     'i64': (0, 1, 2, 3),
     'i32s': (-2, -1, 0, 1),       # signed raw counts
     'u16': (0, 1, 2, 3),          # unsigned raw counts
+    'i16fs': (-30000, 0, 3000, 30000),   # full-scale int16 capture: every value fits int16, some differences do not
 }
-ALPHA_DTYPE = {'i64': np.int64, 'i32s': np.int32, 'u16': np.uint16}
+ALPHA_DTYPE = {'i64': np.int64, 'i32s': np.int32, 'u16': np.uint16, 'i16fs': np.int16}
+# input classes whose failures get their own keys (one defect class: the arithmetic is carried out in the input's own integer
+# dtype and wraps around)
+SI_WRAP = {'i16fs': 'full-scale-int16-input', 'i2fs': 'full-scale-int16-input'}
 EPS = float(np.finfo(float).eps)
 EPS32 = float(np.finfo(np.float32).eps)
 
@@ -107,8 +119,15 @@ def _unpack(out):
         return None
 
 
-def si_eval(values, p, dtype=float):
+def si_eval(values, p, dtype=float, wrap=None):
     """run the real shortest_int on one small vector; -> (key|None, message, outcome tag, nontrivial tag|None)"""
+    key, msg, otag, nt = _si_eval(values, p, dtype)
+    if key is not None and wrap is not None:
+        key, msg = 'SI:integer-input-wraparound:' + wrap, f'[{key}] (dtype {np.dtype(dtype).name}) ' + msg
+    return key, msg, otag, nt
+
+
+def _si_eval(values, p, dtype):
     from opticomlib.utils import shortest_int
     data = np.array(values, dtype=dtype)
     n = len(values)
@@ -174,7 +193,7 @@ def si_batch(case):
     h = zlib.crc32(b'')
     for vec in vectors(alpha, length, prefix):
         for p in PSETS[pset]:
-            key, msg, otag, nt = si_eval(vec, p, dtype)
+            key, msg, otag, nt = si_eval(vec, p, dtype, SI_WRAP.get(alpha))
             ncall += 1
             outs.add(otag)
             h = zlib.crc32(repr((vec, p, otag[2:], key)).encode(), h)
@@ -194,7 +213,7 @@ def si_batch(case):
 def si_single(case):
     """one vector, one percent (replayable form of a failure found by a batch)"""
     alpha, vec, p = case
-    key, msg, otag, nt = si_eval(tuple(vec), p, ALPHA_DTYPE.get(alpha, float))
+    key, msg, otag, nt = si_eval(tuple(vec), p, ALPHA_DTYPE.get(alpha, float), SI_WRAP.get(alpha))
     return res(viol=[(key, msg)] if key else [], obs=otag, nontrivial=nt if nt is not None else False)
 
 
@@ -315,6 +334,9 @@ def si_long(case):
         if first is None:
             first = v
     if first is not None:
+        wrap = SI_WRAP.get(kind.partition('@')[2])
+        if wrap is not None:
+            first = ('SI:integer-input-wraparound:' + wrap, f'[{first[0]}] ' + first[1])
         viol.append(first)
     return res(viol=viol, obs=(lo, hi), nontrivial=nt, stats=stats)
 
@@ -323,7 +345,7 @@ def si_long(case):
 ADC_KINDS = ('gauss', 'uniform', 'sine', 'quant16', 'gauss_out')
 ADC_LENGTHS = (2, 3, 100, 9999, 10000, 20000, 2 ** 17)
 ADC_FORMS = ('ndarray', 'container', 'container+noise')
-ADC_DTYPES = ('f8', 'i4', 'i8', 'i2', 'f4')  # TEMP     # see COUNTS
+ADC_DTYPES = ('f8', 'i4', 'i8', 'i2', 'f4', 'u2', 'i2fs')     # see COUNTS
 ADC_NS = tuple(range(1, 13))
 ADC_SWEEP = tuple((n, o) for n in ADC_NS for o in ('n', 'v'))  # the conversions applied to ONE shared input object
 CLAUSES = ('length', 'integer-codes', 'saturation', 'range', 'levels', 'half-step')
@@ -565,6 +587,7 @@ def run(ctx):
 
     plan = [('int4', 8 if q else 9, 'std'), ('mix', 6 if q else 8, 'std'), ('tiny', 6 if q else 8, 'std'),
             ('i64', 6 if q else 7, 'std'), ('i32s', 6 if q else 7, 'std'), ('u16', 6 if q else 7, 'std'),
+            ('i16fs', 6 if q else 7, 'std'),
             ('int4', 7 if q else 8, 'edge'), ('i64', 6 if q else 7, 'edge')]
     for alpha, maxlen, pset in plan:
         part = f'si-exhaustive-{alpha}' + ('' if pset == 'std' else '-' + pset)
@@ -595,7 +618,7 @@ def run(ctx):
         ctx.spaces[part + ':calls'] = total
 
     kinds = ('gauss', 'uniform', 'quant16')
-    ikinds = ('gauss@i4', 'quant16@i8', 'uniform@i2', 'gauss@u2', 'gauss@f4')     # raw-count / float32 records
+    ikinds = ('gauss@i4', 'quant16@i8', 'uniform@i2', 'gauss@u2', 'gauss@f4', 'gauss_out@i2fs')     # raw-count / float32 records
     lens = (10 ** 4, 2 ** 17)
     long_cases = [(k, n, p, ctx.seed + j) for n in lens for k in kinds for p in PERCENTS
                   for j in range(1 if q else 4)]
